@@ -3,7 +3,10 @@ package interp
 // Exported helpers for the driver.
 
 import (
+	"encoding/json"
+	"os"
 	"sort"
+	"strconv"
 	"strings"
 )
 
@@ -38,4 +41,52 @@ func (r *Report) FuncsMatching(sub string) []string {
 	}
 	sort.Strings(out)
 	return out
+}
+
+// SchemaPath is the compose JSON schema file of the tree under test.
+var SchemaPath = "/repo/schema/compose-spec.json"
+
+func schemaKeys(path string) []string {
+	b, err := os.ReadFile(SchemaPath)
+	if err != nil {
+		return nil
+	}
+	var doc interface{}
+	if json.Unmarshal(b, &doc) != nil {
+		return nil
+	}
+	cur := doc
+	for _, seg := range strings.Split(path, "/") {
+		if seg == "" {
+			continue
+		}
+		switch x := cur.(type) {
+		case map[string]interface{}:
+			cur = x[seg]
+		case []interface{}:
+			n, err := strconv.Atoi(seg)
+			if err != nil || n >= len(x) {
+				return nil
+			}
+			cur = x[n]
+		default:
+			return nil
+		}
+	}
+	m, ok := cur.(map[string]interface{})
+	if !ok {
+		return nil
+	}
+	var keys []string
+	for k := range m {
+		keys = append(keys, k)
+	}
+	sort.Strings(keys)
+	return keys
+}
+
+func init() {
+	vrtIntrinsics["vrtSchemaKeys"] = func(fr *frame, a []value) value {
+		return valStrs(schemaKeys(a[0].(string)))
+	}
 }
